@@ -1,6 +1,6 @@
 #!/bin/sh
 # seedrun.sh <seed id e.g. C01-1> [tier]  : apply the seeded change to /repo, run the property's check, revert.
-id=$1; tier=${2:-quick}; base=${id#r4-}; pid=${3:-${base%%-*}}
+id=$1; tier=${2:-quick}; base=${id#r[0-9]-}; pid=${3:-${base%%-*}}
 cd /repo || exit 2
 test -z "$(git status --porcelain -- fortls)" || { echo "repo not clean"; exit 2; }
 git apply --recount -C1 /verif/seeded/$id/patch.diff 2>/dev/null || { echo "PATCH-DOES-NOT-APPLY $id"; git checkout -q -f HEAD -- . ; exit 3; }
